@@ -15,7 +15,8 @@ from common import err_code
 
 PROP = 11
 FN_NAME = {1: "HMMResult", 2: "NRPSPKSDomains", 3: "TTAResults", 4: "HmmerResults", 5: "HMMDetectionResults",
-           6: "SideloadedResults", 7: "RuleDetectionResults", 9: "main.run_module"}
+           6: "SideloadedResults", 7: "RuleDetectionResults", 9: "main.run_module",
+           20: "AntismashResults.from_file", 21: "reuse_path", 22: "Record.strip_antismash_annotations"}
 
 
 # ---------------------------------------------------------------- flat JSON encoding
@@ -1657,6 +1658,644 @@ def main_level(chk, rng, quick, add_case):
         add_case(mode, entries, behs, impl, what, describe)
 
 
+# ---------------------------------------------------------------- the reuse path: results file -> read_data -> regeneration
+# (model: coq/C11/ModelTop.v).  A first run through the real main.run_detection / analyse_record (the binary-dependent
+# run_on_record of full_hmmer / cluster_hmmer / sideloader is replaced by handing out prebuilt results objects; hmm_detection
+# over dynamic profiles and tta run for real), the real AntismashResults.write_to_file at the point main._run_antismash
+# writes it, annotate_records; then the reusing run: real main.read_data on that file, real run_detection / analyse_record
+# over the REAL module lists with nothing (or only tta) enabled, write_to_file, annotate_records.  Compared: the features of
+# every record (multiset), the module JSON, the record JSON of the two files.
+
+PFAM_DB = os.path.join("dummy", "pfam", "35.0", "Pfam-A.hmm")
+REUSE_PROFILES = ["p", "q"]
+
+
+def reuse_gen(rng):
+    """ the description of one first run: records with genes, whole-genome annotations, areas """
+    records = []
+    n_records = rng.choice([1, 2, 2, 3])
+    for r in range(n_records):
+        n_genes = rng.randint(1, 4)
+        gene_len = 300
+        length = 200 + 600 * n_genes
+        gc = rng.choice([0.3, 0.5, 0.7])
+        seq = "".join(rng.choice("GC") if rng.random() < gc else rng.choice("AT") for _ in range(length))
+        genes = []
+        for g in range(n_genes):
+            start = 60 + 600 * g
+            genes.append([f"r{r}g{g}", start, start + gene_len, rng.choice([1, -1])])
+        area = rng.choice(["none", "none", "none", "subregion", "protocluster", "both", "rules", "rules+subregion"])
+        subregions, protoclusters, rule_hits = [], [], {}
+        if "subregion" in area or area == "both":
+            a = rng.randint(0, length - 200)
+            subregions.append([a, rng.randint(a + 100, length), rng.choice(["lab", "other label"])])
+            if rng.random() < 0.3:
+                b = rng.randint(0, length - 200)
+                subregions.append([b, rng.randint(b + 100, length), "second"])
+        if area in ("protocluster", "both"):
+            gene = rng.choice(genes)
+            left = rng.choice([0, 30, gene[1]])
+            right = rng.choice([0, 50, length - gene[2]])
+            protoclusters.append([gene[1], gene[2], rng.choice(["prodA", "prodB"]), left, right])
+        if "rules" in area:
+            for gene in genes:
+                rule_hits[gene[0]] = sorted(rng.sample(REUSE_PROFILES, rng.randint(0, 2)))
+            if not any(rule_hits.values()):
+                rule_hits[genes[0][0]] = ["p"]
+        hmmer = {}
+        for tool in ("fullhmmer", "clusterhmmer"):
+            hits = []
+            if rng.random() < (0.75 if tool == "fullhmmer" else 0.6):
+                for gene in genes:
+                    for _ in range(rng.choice([0, 1, 1, 2])):
+                        a = rng.randint(0, gene_len // 3 - 10)
+                        hits.append([gene[0], a, rng.randint(a + 1, gene_len // 3), rng.randint(1, 20000),
+                                     rng.choice([1e-10, 2.5e-5, 0.01]), rng.choice([0.0, 12.5, 50.5, 300.25])])
+            hmmer[tool] = hits
+        records.append({"id": f"rec{r}", "seq": seq, "circular": rng.random() < 0.3, "genes": genes, "area": area,
+                        "subregions": subregions, "protoclusters": protoclusters, "rule_hits": rule_hits,
+                        "fullhmmer": hmmer["fullhmmer"], "clusterhmmer": hmmer["clusterhmmer"],
+                        "misc": rng.random() < 0.5})
+    return {"records": records, "fullhmmer_enabled": rng.random() < 0.85, "clusterhmmer_enabled": rng.random() < 0.7,
+            "sideload_enabled": any(rc["subregions"] or rc["protoclusters"] for rc in records) or rng.random() < 0.3,
+            "tta": rng.choice([None, 0.0, 0.4, 0.65]), "tta_on_reuse": rng.random() < 0.5,
+            "rules": "RULE rulep CATEGORY c CUTOFF 1 NEIGHBOURHOOD 0 CONDITIONS p\n"
+                     "RULE ruleq CATEGORY c CUTOFF 1 NEIGHBOURHOOD 0 CONDITIONS q"}
+
+
+def reuse_build_record(rc):
+    from antismash.common.secmet import Record
+    from antismash.common.secmet.features import CDSFeature, Feature
+    from antismash.common.secmet.locations import FeatureLocation
+    record = Record(rc["seq"])
+    record.id = rc["id"]
+    record.name = rc["id"]
+    record.add_annotation("topology", "circular" if rc["circular"] else "linear")
+    record.add_annotation("molecule_type", "DNA")
+    for name, start, end, strand in rc["genes"]:
+        record.add_cds_feature(CDSFeature(FeatureLocation(start, end, strand), translation="M" + "A" * ((end - start) // 3 - 1),
+                                          locus_tag=name))
+    if rc["misc"]:
+        feature = Feature(FeatureLocation(5, 25, 1), feature_type="misc_feature")
+        feature.notes.append("from the input file")
+        record.add_feature(feature)
+    return record
+
+
+def reuse_hmmer_results(record, rc, tool, genes_allowed=None):
+    from antismash.common.hmmer import HmmerHit, HmmerResults
+    from antismash.detection import full_hmmer, cluster_hmmer
+    module = full_hmmer if tool == "fullhmmer" else cluster_hmmer
+    hits = []
+    for gene, a, b, number, evalue, score in rc[tool]:
+        if genes_allowed is not None and gene not in genes_allowed:
+            continue
+        cds = record.get_cds_by_name(gene)
+        hits.append(HmmerHit(location=str(cds.get_sub_location_from_protein_coordinates(a, b)), label=f"label{number}",
+                             locus_tag=gene, domain=f"domain{number}", evalue=evalue, score=score,
+                             identifier=f"PF{number:05d}.{number % 9 + 1}", description=f"description {number}",
+                             protein_start=a, protein_end=b, translation=cds.translation[a:b]))
+    return HmmerResults(record.id, module.MAX_EVALUE, module.MIN_SCORE, PFAM_DB, tool, hits)
+
+
+def reuse_sideloaded(record, rc):
+    from antismash.detection.sideloader.data_structures import (SideloadedResults, SubRegionAnnotation,
+                                                                  ProtoclusterAnnotation, Tool)
+    tool = Tool("manual", "N/A", "command line argument", {})
+    origin = len(record) if record.is_circular() else None      # as sideloader.general.load_single_record_annotations
+    subs = [SubRegionAnnotation(s, e, label, tool, {}, circular_origin=origin) for s, e, label in rc["subregions"]]
+    protos = [ProtoclusterAnnotation(s, e, product, tool, {}, left, right, circular_origin=origin)
+              for s, e, product, left, right in rc["protoclusters"]]
+    return SideloadedResults(record.id, subs, protos)
+
+
+def reuse_ruleset(case):
+    """ the rule set of the case: dynamic profiles that hit the genes of the record they are asked about """
+    from antismash.common.hmm_rule_parser import rule_parser
+    from antismash.common.hmm_rule_parser.structures import DynamicProfile, DynamicHit
+    from antismash.common.hmm_rule_parser.test.helpers import create_ruleset
+    hits = {rc["id"]: rc["rule_hits"] for rc in case["records"]}
+
+    def make(profile):
+        def detect(record, _hmmer_hits):
+            return {gene: [DynamicHit(gene, profile)] for gene, profs in hits.get(record.id, {}).items() if profile in profs}
+        return DynamicProfile(profile, "d", detect)
+    rules = rule_parser.Parser(case["rules"], set(REUSE_PROFILES), {"c"}).rules
+    return create_ruleset(rules, dynamic_profiles={p: make(p) for p in REUSE_PROFILES})
+
+
+class FirstRun:
+    """ a detection module whose own computation needs external binaries or input files: run_on_record hands out the
+        results object prepared for the record; everything else is the real module """
+    def __init__(self, module, build):
+        self.module, self.build = module, build
+        self.__name__ = module.__name__
+
+    def is_enabled(self, _options):
+        return True
+
+    def regenerate_previous_results(self, previous, record, options):
+        return self.module.regenerate_previous_results(previous, record, options)
+
+    def run_on_record(self, record, results, _options):
+        if results is not None:
+            return results
+        return self.build(record)
+
+
+def reuse_feature_key(feature):
+    """ one Biopython feature of the annotated record, canonically """
+    quals = tuple(sorted((key, tuple(str(v) for v in (vals if isinstance(vals, (list, tuple)) else [vals])))
+                         for key, vals in feature.qualifiers.items()))
+    return (feature.type, str(feature.location), quals)
+
+
+def reuse_record_features(record):
+    return sorted(reuse_feature_key(f) for f in record.to_biopython().features)
+
+
+def reuse_pipeline(results, options):
+    """ the record loop of main._run_antismash between read_data and the output modules (pre_process_sequences, which
+        needs gene finding, left out): detection, analysis """
+    from antismash import main as amain
+    for index, (record, module_results) in enumerate(zip(results.records, results.results)):
+        if record.skip:
+            continue
+        try:
+            amain.run_detection(record, options, module_results)
+            if not record.get_regions():
+                continue
+            amain.analyse_record(record, options, amain.get_analysis_modules(), module_results)
+        except Exception as exc:  # pylint: disable=broad-except
+            exc.verif_record_index = index
+            raise
+
+
+def reuse_json_feature_key(feature):
+    """ a feature of a record as saved in the results file (serialiser.feature_to_json), keyed as reuse_feature_key """
+    quals = tuple(sorted((key, tuple(str(v) for v in (vals if isinstance(vals, (list, tuple)) else [vals])))
+                         for key, vals in feature["qualifiers"].items()))
+    return (feature["type"], feature["location"], quals)
+
+
+def reuse_run(case, tmpdir, read_data=None):
+    """ first run, results file, reusing run; returns {"status": "ok" | "differs" | "dies" | "first_run_failed", ...} """
+    import detect_util
+    from antismash import main as amain
+    from antismash.common import serialiser, json as asjson
+    from antismash.config import build_config, destroy_config, update_config
+    from antismash.detection import DetectionStage, full_hmmer, cluster_hmmer, sideloader, hmm_detection
+    from antismash.modules import tta
+    global _TTA_READY
+    by_id = {rc["id"]: rc for rc in case["records"]}
+    ruleset = reuse_ruleset(case)
+    use_rules = any(rc["rule_hits"] for rc in case["records"])
+    first = {
+        DetectionStage.FULL_GENOME: [
+            FirstRun(full_hmmer, lambda record: reuse_hmmer_results(record, by_id[record.id], "fullhmmer")),
+            FirstRun(sideloader, lambda record: reuse_sideloaded(record, by_id[record.id]))],
+        DetectionStage.AREA_FORMATION: [hmm_detection],
+        DetectionStage.AREA_REFINEMENT: [],
+        DetectionStage.PER_AREA: [
+            FirstRun(cluster_hmmer, lambda record: reuse_hmmer_results(
+                record, by_id[record.id], "clusterhmmer", {c.get_name() for c in record.get_cds_features_within_regions()}))],
+    }
+    enabled = []
+    if case["fullhmmer_enabled"]:
+        enabled.append(first[DetectionStage.FULL_GENOME][0])
+    if case["sideload_enabled"]:
+        enabled.append(first[DetectionStage.FULL_GENOME][1])
+    if use_rules:
+        enabled.append(hmm_detection)
+    if case["clusterhmmer_enabled"]:
+        enabled.append(first[DetectionStage.PER_AREA][0])
+    if case["tta"] is not None:
+        enabled.append(tta)
+    argv = ["--tta-threshold", str(case["tta"] if case["tta"] is not None else 0.65)]
+    old_modules, old_ruleset = amain._DETECTION_MODULES, hmm_detection.get_ruleset  # pylint: disable=protected-access
+    hmm_detection.get_ruleset = lambda _options: ruleset
+    summary = []
+    path1, path2 = os.path.join(tmpdir, "first.json"), os.path.join(tmpdir, "second.json")
+    try:
+        # ---- the first run
+        try:
+            destroy_config()
+            options = build_config(argv, isolated=True, modules=amain.get_all_modules())
+            update_config({"all_enabled_modules": enabled})
+            records = [reuse_build_record(rc) for rc in case["records"]]
+            results = serialiser.AntismashResults("input.gbk", records, [{} for _ in records], "verif", taxon="bacteria")
+            amain._DETECTION_MODULES = first  # pylint: disable=protected-access
+            try:
+                reuse_pipeline(results, options)
+            finally:
+                amain._DETECTION_MODULES = old_modules  # pylint: disable=protected-access
+            results.write_to_file(path1)
+            amain.annotate_records(results)
+            expected = [reuse_record_features(record) for record in records]
+            expected_json = [{name: asjson.dumps(res.to_json()) for name, res in mr.items()} for mr in results.results]
+        except Exception as exc:  # pylint: disable=broad-except
+            return {"status": "first_run_failed", "what": f"{type(exc).__name__}: {exc}"}
+        for record, rc, mr in zip(records, case["records"], results.results):
+            summary.append({"id": record.id, "regions": len(record.get_regions()),
+                            "fullhmmer": len(record.get_pfam_domains()), "modules": sorted(m.rsplit(".", 1)[-1] for m in mr),
+                            "features": len(expected[len(summary)])})
+        with open(path1, encoding="utf-8") as handle:
+            saved = [sorted(reuse_json_feature_key(f) for f in rec["features"]) for rec in asjson.loads(handle.read())["records"]]
+        # ---- the reusing run
+        stage = "read_data"
+        try:
+            destroy_config()
+            options = build_config(argv + ["--reuse-results", path1], isolated=True, modules=amain.get_all_modules())
+            update_config({"all_enabled_modules": [tta] if case["tta_on_reuse"] and case["tta"] is not None else []})
+            reused = (read_data or amain.read_data)(None, options)
+            stage = "run_detection / analyse_record"
+            reuse_pipeline(reused, options)
+            stage = "write_to_file"
+            reused.version = "verif"
+            reused.write_to_file(path2)
+            stage = "annotate_records"
+            amain.annotate_records(reused)
+        except Exception as exc:  # pylint: disable=broad-except
+            return {"status": "dies", "records": summary, "error": err_code(exc), "expected": expected, "saved": saved,
+                    "died_at": getattr(exc, "verif_record_index", None),
+                    "what": f"the reusing run dies in {stage}: {type(exc).__name__}: {exc}"}
+        found = [reuse_record_features(record) for record in reused.records]
+        out = {"status": "ok", "records": summary, "expected": expected, "found": found, "saved": saved}
+        if [r.id for r in reused.records] != [r.id for r in records]:
+            return dict(out, status="differs", what="the records of the results file differ")
+        for i, (want, got) in enumerate(zip(expected, found)):
+            if want != got:
+                missing = [f for f in want if f not in got]
+                extra = [f for f in got if f not in want]
+                return dict(out, status="differs", record=i,
+                            what=f"record {records[i].id}: the annotated record after reuse differs from the first run's: "
+                                 f"{len(want)} features then, {len(got)} now; missing {missing[:2]}, unexpected {extra[:2]}")
+        found_json = [{name: asjson.dumps(res.to_json()) for name, res in mr.items()} for mr in reused.results]
+        for i, (want, got) in enumerate(zip(expected_json, found_json)):
+            if list(want) != list(got):
+                return dict(out, status="differs", record=i,
+                            what=f"record {records[i].id}: results of {list(want)} were saved, the reusing run holds {list(got)}")
+            for name in want:
+                if want[name] != got[name]:
+                    return dict(out, status="differs", record=i,
+                                what=f"record {records[i].id}: the regenerated {name} results save to different JSON")
+        with open(path1, encoding="utf-8") as handle:
+            data1 = asjson.loads(handle.read())
+        with open(path2, encoding="utf-8") as handle:
+            data2 = asjson.loads(handle.read())
+        if asjson.dumps(data1["records"]) != asjson.dumps(data2["records"]):
+            return dict(out, status="differs", what="the results file written by the reusing run has different records")
+        if {k: v for k, v in data1.items() if k not in ("records", "timings")} != \
+                {k: v for k, v in data2.items() if k not in ("records", "timings")}:
+            return dict(out, status="differs", what="the results file written by the reusing run has different top-level fields")
+        return out
+    finally:
+        amain._DETECTION_MODULES = old_modules  # pylint: disable=protected-access
+        hmm_detection.get_ruleset = old_ruleset
+        destroy_config()
+        _TTA_READY = False
+
+
+REUSE_KIND = {"protocluster": 1, "proto_core": 1, "cand_cluster": 2, "subregion": 3, "region": 4, "aSDomain": 5,
+              "PFAM_domain": 6, "aSModule": 7, "CDS_motif": 8}
+
+
+def reuse_abstract(saved, final, found):
+    """ one record of a reuse case in the vocabulary of coq/C11/ModelTop.v: every distinct feature gets an identity,
+        a kind, a name (the domain name for the kinds sharing Record._domains_by_name) and the created-by-antiSMASH flag;
+        what was saved is split by the stage of main.run_detection that adds it, what the analysis modules added is
+        final minus saved.  Returns (flat payload, saved ids, final ids, found ids or None) """
+    keys = sorted(set(saved) | set(final) | set(found or []))
+    ident = {key: i for i, key in enumerate(keys)}
+    names = {}
+
+    def feat(key):
+        quals = dict(key[2])
+        kind = REUSE_KIND.get(key[0], 0)
+        name = ident[key]
+        if kind in (5, 6, 8):
+            label = quals.get("domain_id", quals.get("label", (repr(key),)))[0]
+            name = 100000 + names.setdefault(label, len(names))
+        return [ident[key], kind, name, int(quals.get("tool") == ("antismash",))]
+    base, early, derived, per_area = [], [], [], []
+    for key in saved:
+        kind = REUSE_KIND.get(key[0], 0)
+        tool = dict(key[2]).get("aSTool", ("",))[0]
+        if kind == 0 or (kind == 8 and dict(key[2]).get("tool") != ("antismash",)):
+            base.append(key)
+        elif kind in (2, 4):
+            derived.append(key)
+        elif tool in ("clusterhmmer",) or kind in (5, 7, 8):
+            per_area.append(key)
+        else:
+            early.append(key)
+    rest = list(final)
+    for key in saved:
+        if key in rest:
+            rest.remove(key)
+    flat = []
+    for group in (base, early, derived, per_area, rest):
+        flat.append(len(group))
+        for key in group:
+            flat += feat(key)
+    return (flat, sorted(ident[k] for k in saved), sorted(ident[k] for k in final),
+            None if found is None else sorted(ident[k] for k in found))
+
+
+def reuse_level(chk, rng, quick, add_case):
+    """ the reuse-path family: add_case(flat, impl_out, what, describe) per record; whole-file disagreements (module JSON,
+        results file text) are judged here against the first run directly """
+    import shutil
+    import tempfile
+    tmpdir = tempfile.mkdtemp(prefix="asv_c11_reuse_")
+    reported = False
+    try:
+        for _ in range(300 if quick else 3000):
+            case = reuse_gen(rng)
+            out = reuse_run(case, tmpdir)
+            chk.count("reuse_path:" + out["status"])
+            if out["status"] == "first_run_failed":
+                chk.violation("broken-correspondence", "reuse path: the first run of a generated case fails: " + out["what"],
+                              {"theorem_or_correspondence": "generator discipline", "input": case})
+                break
+            describe = {"first run": {k: v for k, v in case.items() if k != "records"},
+                        "records": [{k: (v if k != "seq" else f"{len(v)} nt") for k, v in rc.items()} for rc in case["records"]]}
+            if out["status"] == "dies" and out["died_at"] is None:
+                if not reported:
+                    reported = True
+                    chk.violation("counterexample", "reuse path: " + out["what"],
+                                  {"input": describe, "theorem_or_correspondence": "C11_reuse_after_strip_same_features"})
+                continue
+            if out["status"] == "differs" and "record" not in out and not reported:
+                reported = True
+                chk.violation("counterexample", "reuse path: " + out["what"],
+                              {"input": describe, "theorem_or_correspondence": "reuse path (results file)"})
+            for i, rc in enumerate(case["records"]):
+                if out["status"] == "dies":
+                    if i != out["died_at"]:
+                        continue
+                    found = None
+                else:
+                    found = out["found"][i]
+                flat, saved_ids, _final_ids, found_ids = reuse_abstract(out["saved"][i], out["expected"][i], found)
+                impl = [1, out["error"]] if found is None else [0, 1, len(saved_ids)] + saved_ids + [len(found_ids)] + found_ids
+                info = out["records"][i]
+                what = ("regions" if info["regions"] else "no_regions") + ("+fullhmmer" if info["fullhmmer"] else "")
+                note = dict(describe, record=rc["id"], outcome=out.get("what", "reused"), first_run_summary=info)
+                add_case([PROP, 21] + flat, impl, what, note, info)
+            if out["status"] == "differs" and "record" in out and "save to different JSON" in out["what"] + "were saved" \
+                    and not reported and ("JSON" in out["what"] or "were saved" in out["what"]):
+                reported = True
+                chk.violation("counterexample", "reuse path: " + out["what"],
+                              {"input": describe, "theorem_or_correspondence": "reuse path (module results)"})
+    finally:
+        shutil.rmtree(tmpdir, ignore_errors=True)
+
+
+# ---------------------------------------------------------------- fn 22: Record.strip_antismash_annotations and the name table
+# (model: strip / add_feat / add_all of coq/C11/ModelTop.v).  Real features of every kind are added to a real record (areas
+# optionally turned into candidate clusters and regions by the record itself), the record is stripped as main.read_data
+# does, then further features are added: which features are on the record afterwards, or which exception the name
+# table raises.
+
+def strip_gen(rng):
+    """ ([feat], create_regions, [feat]) with feat = [identity, kind, name, created_by_antismash] """
+    counter = [0]
+    names = list(range(1, 7))
+
+    def some(n):
+        out = []
+        for _ in range(n):
+            kind = rng.choice([0, 0, 1, 3, 5, 5, 6, 6, 8, 8])
+            counter[0] += 1
+            made = 1 if kind in (1, 3, 5, 6) else int(rng.random() < 0.6)
+            name = rng.choice(names) if rng.random() < 0.8 else 10 + counter[0]
+            out.append([counter[0], kind, name if kind in (5, 6, 8) else counter[0], made])
+            if kind == 5 and rng.random() < 0.4:
+                counter[0] += 1
+                out.append([counter[0], 7, counter[0], 1])        # a module over the domain just added
+        return out
+    first = some(rng.randint(0, 7))
+    if rng.random() < 0.55:
+        # the usual history: no clash while the first run annotates
+        seen, kept, drop_module = set(), [], False
+        for feat in first:
+            if feat[1] == 7 and drop_module:
+                drop_module = False
+                continue
+            drop_module = False
+            if feat[1] in (5, 6, 8):
+                if feat[2] in seen:
+                    drop_module = feat[1] == 5
+                    continue
+                seen.add(feat[2])
+            kept.append(feat)
+        first = kept
+    again = rng.random()
+    if again < 0.4:
+        # what a reusing run adds: the antiSMASH-made features once more (new objects, same names)
+        adds = []
+        for feat in first:
+            if feat[1] != 0 and feat[3]:
+                counter[0] += 1
+                adds.append([counter[0], feat[1], feat[2] if feat[1] in (5, 6, 8) else counter[0], 1])
+    else:
+        adds = some(rng.randint(0, 6))
+    return first, int(rng.random() < 0.6), adds
+
+
+def impl_strip(first, create, adds):
+    from antismash.common.secmet.features import Feature, Module
+    from antismash.common.secmet.locations import FeatureLocation
+    from antismash.common.secmet.test.helpers import (DummyAntismashDomain, DummyCDS, DummyCDSMotif, DummyPFAMDomain,
+                                                      DummyProtocluster, DummyRecord, DummySubRegion)
+
+    def work():
+        record = DummyRecord(seq="A" * 3000, features=[DummyCDS(0, 2700, locus_tag="cdsA")], record_id="rec")
+        made = {}
+        last_domain = [None]
+
+        def add(feat, index):
+            ident, kind, name, by_antismash = feat
+            start = 9 + 12 * index
+            end = start + 9
+            if kind == 0:
+                obj = Feature(FeatureLocation(start, end, 1), feature_type="misc_feature", created_by_antismash=bool(by_antismash))
+            elif kind == 1:
+                obj = DummyProtocluster(start=start, end=end, core_start=start + 3, core_end=end - 3)
+            elif kind == 3:
+                obj = DummySubRegion(start=start, end=end)
+            elif kind == 5:
+                obj = DummyAntismashDomain(start=start, end=end, domain_id=f"name{name}", locus_tag="cdsA")
+                last_domain[0] = obj
+            elif kind == 6:
+                obj = DummyPFAMDomain(start=start, end=end, domain_id=f"name{name}", locus_tag="cdsA")
+            elif kind == 7:
+                obj = Module(last_domain[0].location, [last_domain[0]])
+            else:
+                obj = DummyCDSMotif(start=start, end=end, domain_id=f"name{name}", locus_tag="cdsA")
+                obj.created_by_antismash = bool(by_antismash)
+            made[id(obj)] = (ident, obj)
+            record.add_feature(obj)
+        for index, feat in enumerate(first):
+            add(feat, index)
+        if create:
+            record.create_candidate_clusters()
+            record.create_regions()
+        record.strip_antismash_annotations()
+        if record.get_regions() or record.get_candidate_clusters():
+            return [7, 7]           # candidate clusters / regions survive the strip: differs from every model output
+        for index, feat in enumerate(adds):
+            add(feat, len(first) + index)
+        found = []
+        for feature in record.all_features:
+            if id(feature) in made:
+                found.append(made[id(feature)][0])
+            elif feature.type != "CDS":
+                return [7, 8]       # a feature nobody added
+        return [0, 1, len(found)] + sorted(found)
+    return guarded(work)
+
+
+def strip_level(chk, rng, quick, add_case):
+    for _ in range(1000 if quick else 12000):
+        first, create, adds = strip_gen(rng)
+        out = impl_strip(first, create, adds)
+        flat = [PROP, 22, len(first)] + [x for feat in first for x in feat] + [len(adds)] + [x for feat in adds for x in feat]
+        what = "error_in_first_run" if False else ("readd" if adds and all(f[3] for f in adds) else "mixed")
+        add_case(flat, out, what, {"features added first (identity, kind, name, created_by_antismash)": first,
+                                   "create_candidate_clusters + create_regions": create, "added after the strip": adds,
+                                   "kinds": "0 other 1 protocluster 3 subregion 5 aSDomain 6 PFAM_domain 7 aSModule 8 CDS_motif"},
+                 None)
+
+
+# ---------------------------------------------------------------- the top-level reader: AntismashResults.from_file / main.read_data
+
+def top_base_file():
+    """ a results file of one small record with TTA results, produced by the real writer, as parsed JSON """
+    from io import StringIO
+    from antismash.common import serialiser
+    from antismash.common.secmet.test.helpers import DummyCDS, DummyRecord
+    from antismash.modules import tta
+    from antismash.modules.tta.tta import TTAResults
+    record = DummyRecord(seq="ATGTTAGGCCGCGGCTGA" * 4, features=[DummyCDS(0, 18, locus_tag="cdsA", translation="MLGRG")], record_id="rec1")
+    found = TTAResults(record.id, record.get_gc_content(), 0.3)
+    found.new_feature_from_basics(3, 1)
+    results = serialiser.AntismashResults("dummy.gbk", [record], [{tta.__name__: found}], "verif", taxon="bacteria")
+    handle = StringIO()
+    results.write_to_file(handle)
+    return through_orjson(__import__("json").loads(handle.getvalue()))
+
+
+def top_variants(rng, cur, compat, count):
+    """ (what, schema value or absent, other edits) """
+    absent = object()
+    listed = sorted(compat)
+    below_unlisted = [s for s in (0, -1, min(listed + [cur]) - 1, cur - 1, cur - 2) if s != cur and s not in compat]
+    rows = [("equal", cur, None)] + [("below_listed", s, None) for s in listed if s < cur] + \
+           [("listed_not_below", s, None) for s in listed if s >= cur] + \
+           [("below_unlisted", s, None) for s in below_unlisted] + \
+           [("above", s, None) for s in (cur + 1, cur + 2, cur + 10, 2 ** 40)] + [("missing", absent, None)]
+    for value in (str(cur), "", None, float(cur), float(cur) + 0.5, float(cur + 1), 1.0, 0.0, True, False, [], [cur], {},
+                  {"schema": cur}, str(cur + 1)):
+        rows.append(("non_integer", value, None))
+    for key in ("version", "input_file", "records"):
+        rows.append(("key_missing", cur, ("del", key)))
+        rows.append(("key_missing", cur + 1, ("del", key)))
+    for top in ([], [cur], cur, "results", None):
+        rows.append(("not_an_object", cur, ("top", top)))
+    for _ in range(count):
+        rows.append(("random", rng.randint(-2, cur + 6), None))
+    return absent, rows
+
+
+def top_level(chk, rng, quick, add_case):
+    """ AntismashResults.from_file and main.read_data on results files whose top-level schema is below (listed and
+        unlisted), equal to and above the current one, missing or not an integer; under the real SCHEMA_VERSION and
+        with it raised / lowered (the compatibility table then in force is the class's own entry for that version) """
+    import tempfile
+    import shutil
+    import copy
+    from io import StringIO
+    from antismash import main as amain
+    from antismash.common import serialiser
+    from antismash.config import build_config, destroy_config
+    global _TTA_READY
+    cls = serialiser.AntismashResults
+    real_cur = cls.SCHEMA_VERSION
+    base = top_base_file()
+    tmpdir = tempfile.mkdtemp(prefix="asv_c11_top_")
+    path = os.path.join(tmpdir, "previous.json")
+    known = set(cls.COMPATIBLE_SCHEMAS)
+
+    def outcome(fn):
+        try:
+            res = fn()
+        except Exception as exc:  # pylint: disable=broad-except
+            return [1, err_code(exc)]
+        return [0, 1, len(res.records)]
+    try:
+        destroy_config()
+        with open(path, "w", encoding="utf-8") as handle:
+            handle.write("{}")
+        options = build_config(["--reuse-results", path], isolated=True, modules=amain.get_all_modules())
+        for cur in (real_cur, real_cur + 1, real_cur - 1, 1):
+            compat = sorted(cls.COMPATIBLE_SCHEMAS[cur]) if cur in known else []
+            absent, rows = top_variants(rng, cur, compat, (40 if quick else 600) if cur == real_cur else 8)
+            for what, schema, edit in rows:
+                data = copy.deepcopy(base)
+                if schema is absent:
+                    del data["schema"]
+                else:
+                    data["schema"] = schema
+                if edit and edit[0] == "del":
+                    del data[edit[1]]
+                elif edit:
+                    data = edit[1]
+                text = dumps(data)
+                text = text.decode() if isinstance(text, bytes) else text
+                with open(path, "w", encoding="utf-8") as handle:
+                    handle.write(text)
+                cls.SCHEMA_VERSION = cur
+                try:
+                    handle = StringIO(text)
+                    handle.name = "previous.json"
+                    out = outcome(lambda: cls.from_file(handle))
+                    out_path = outcome(lambda: cls.from_file(path))
+                    out_main = outcome(lambda: amain.read_data(None, options))
+                finally:
+                    cls.SCHEMA_VERSION = real_cur
+                    if cur not in known:
+                        cls.COMPATIBLE_SCHEMAS.pop(cur, None)      # the defaultdict lookup created an entry
+                describe = {"schema field of the results file": "absent" if schema is absent else schema,
+                            "AntismashResults.SCHEMA_VERSION": cur, "COMPATIBLE_SCHEMAS[SCHEMA_VERSION]": compat,
+                            "other change": edit, "from_file": out, "main.read_data": out_main}
+                if out_path != out or out_main != out:
+                    chk.violation("counterexample", "the readers of a results file disagree on the same file (from_file on a "
+                                  f"handle {out}, on a path {out_path}, main.read_data {out_main})",
+                                  {"input": describe, "theorem_or_correspondence": "C11_top_accepted_schema"})
+                which = what if cur == real_cur else f"{what}(SCHEMA_VERSION {cur})"
+                chk.count(f"schema_matrix:AntismashResults.from_file+main.read_data:{which}")
+                add_case([PROP, 20] + enc([cur, compat, through_orjson(data)]), out, what, describe, None)
+        # not JSON at all / an empty file: refused with ValueError by both readers
+        for label, text in (("not_json", "LOCUS not json"), ("truncated", dumps(base)[:200]), ("empty", "")):
+            text = text.decode() if isinstance(text, bytes) else text
+            with open(path, "w", encoding="utf-8") as handle:
+                handle.write(text)
+            outs = [outcome(lambda: amain.read_data(None, options))]
+            if text:
+                outs.append(outcome(lambda: cls.from_file(path)))
+            chk.count(f"schema_matrix:AntismashResults.from_file+main.read_data:{label}")
+            if any(o != [1, common.ERR["ValueError"]] for o in outs):
+                chk.violation("counterexample", f"a results file that is {label} is not refused with ValueError: {outs}",
+                              {"input": text[:80], "theorem_or_correspondence": "AntismashResults.from_file"})
+    finally:
+        cls.SCHEMA_VERSION = real_cur
+        shutil.rmtree(tmpdir, ignore_errors=True)
+        destroy_config()
+        _TTA_READY = False
+
+
 # ---------------------------------------------------------------- the run
 
 RULE = ("fn1 HMMResult JSON trees (depth <= 3; nested hits inside / touching / outside the parent; floats with 1..17 "
@@ -1865,11 +2504,48 @@ def run(chk):
     main_level(chk, rng, quick, add_main)
     schema_matrix(chk, labels)
 
+    # fn 20 / 21: the results file (top-level schema guard) and the reuse path through main.read_data
+    top_idx = []
+
+    def add_top(flat, out, what, describe, info):
+        fn = flat[1]
+        top_idx.append((len(cases), describe, info))
+        cases.append(flat)
+        impl_outs.append(out)
+        meta.append((fn, what))
+        chk.count(f"{FN_NAME[fn]}:{what}")
+        if out[0] == 1:
+            chk.count(f"{FN_NAME[fn]}:error_" + common.ERR_NAME.get(out[1], str(out[1])))
+        else:
+            chk.count(f"{FN_NAME[fn]}:" + ("accepted" if fn == 20 else "reused"))
+        chk.note_case(flat, fn == 20 or bool(info and (info["fullhmmer"] or info["regions"])),
+                      {"function": FN_NAME[fn], "class": what, "arguments": describe, "implementation": out[:40]}
+                      if len(chk.samples) < 6 and fn == 21 else None)
+    top_level(chk, rng, quick, add_top)
+    reuse_level(chk, rng, quick, add_top)
+    strip_idx = []
+
+    def add_strip(flat, out, what, describe, _info):
+        strip_idx.append((len(cases), describe))
+        cases.append(flat)
+        impl_outs.append(out)
+        meta.append((22, what))
+        chk.count(f"{FN_NAME[22]}:{what}")
+        chk.count(f"{FN_NAME[22]}:" + ("error_" + common.ERR_NAME.get(out[1], str(out[1])) if out[0] == 1 else "features_compared"))
+        if out[:1] == [7]:
+            chk.violation("counterexample", "Record.strip_antismash_annotations leaves candidate clusters / regions behind, or the "
+                          "record holds a feature nobody added", {"input": describe, "theorem_or_correspondence": "strip / add model"})
+        chk.note_case(flat, True, None)
+    strip_level(chk, rng, quick, add_strip)
+
     # spec_fn_offset: on a disagreement the "saved form" specification (fn + 10) is evaluated on the
     # implementation's output: a saved-form input that is not regenerated identically is a counterexample
+    top_describe = {hash(tuple(cases[i])): describe for i, describe, _ in top_idx}
+    top_describe.update({hash(tuple(cases[i])): describe for i, describe in strip_idx})
     model_outs = common.correspondence(chk, cases, impl_outs, spec_fn_offset=10,
                                        describe=lambda flat: unflat_main(flat) if flat[1] == 9 else
-                                       {"function": FN_NAME.get(flat[1]), "payload": flat[2:]})
+                                       {"function": FN_NAME.get(flat[1]), "decoded": top_describe.get(hash(tuple(flat))),
+                                        "payload": flat[2:] if len(flat) < 400 else flat[2:400] + ["..."]})
     # the specification of the main level (fn 19) on EVERY fn 9 case, on the implementation's outcome
     spec_cases = [[PROP, 19] + cases[i][2:] + impl_outs[i] for i, _ in main_idx]
     # no recorded finding is left at this level (FC11a is repaired): nothing is suppressed; verdict[2] only says that
@@ -1901,6 +2577,70 @@ def run(chk):
     if not repaired_class_cases:
         chk.violation("broken-correspondence", f"no generated main-level case lies in the class {MAIN_REPAIRED_CLASS} of the repaired "
                       "finding FC11a", {"theorem_or_correspondence": "generator discipline"})
+    # the specifications of the top level (fn 30: accepted only with the current or a listed schema, any other schema
+    # refused as coded; fn 31: the record after the reusing run carries exactly the first run's features) on EVERY case
+    spec_cases = [[PROP, cases[i][1] + 10] + cases[i][2:] + impl_outs[i] for i, _, _ in top_idx]
+    seen = {20: False, 21: False}
+    classes = {"whole_genome_domain_without_regions": 0, "whole_genome_domain_with_regions": 0, "schema_unlisted": 0,
+               "schema_listed": 0}
+    for (i, describe, info), verdict in zip(top_idx, common.run_driver(spec_cases)):
+        fn = cases[i][1]
+        if len(verdict) != (2 if fn == 20 else 3):
+            chk.violation("broken-correspondence", f"{FN_NAME[fn]} specification: case does not decode",
+                          {"theorem_or_correspondence": "generator discipline", "flat": cases[i][:200], "verdict": verdict})
+            break
+        if fn == 20:
+            classes["schema_listed" if verdict[1] else "schema_unlisted"] += 1
+        else:
+            if not verdict[1]:
+                chk.violation("broken-correspondence", "reuse path: a generated record lies outside the guard of "
+                              "C11_reuse_after_strip_same_features (the input carries a feature the strip removes, or a detection "
+                              "stage adds one it leaves)", {"theorem_or_correspondence": "generator discipline", "input": describe})
+                break
+            if verdict[2]:
+                classes["whole_genome_domain_without_regions"] += 1
+            elif info and info["fullhmmer"]:
+                classes["whole_genome_domain_with_regions"] += 1
+        if verdict[0] == 1 or seen[fn]:
+            continue
+        seen[fn] = True
+        if fn == 20:
+            chk.violation("counterexample", "AntismashResults.from_file / main.read_data: a results file whose top-level schema is "
+                          "neither the current one nor listed as compatible is not refused (or is refused in another way than "
+                          "the schema guard does)",
+                          {"input": describe, "implementation": impl_outs[i], "model": model_outs[i],
+                           "spec_verdict_on_implementation_output": verdict,
+                           "theorem_or_correspondence": "C11_top_accepted_schema / C11_top_refuses_unlisted"})
+        else:
+            chk.violation("counterexample", "reuse path (main.read_data -> run_detection -> analyse_record -> annotate_records on a "
+                          "results file written by the first run): the record does not end up with the features of the first run"
+                          + (" - a record WITHOUT regions carrying a saved whole-genome domain annotation" if verdict[2] else ""),
+                          {"input": describe, "implementation": impl_outs[i][:60], "model": model_outs[i][:60],
+                           "spec_verdict_on_implementation_output": verdict,
+                           "theorem_or_correspondence": "C11_reuse_after_strip_same_features / C11_reuse_spec_sound"})
+    # fn 32 on every fn 22 case: fresh copies of what the strip cleared must all be added again, and the record then holds
+    # exactly the survivors and the copies
+    strip_reported = False
+    for (i, describe), verdict in zip(strip_idx, common.run_driver([[PROP, 32] + cases[i][2:] + impl_outs[i] for i, _ in strip_idx])):
+        if len(verdict) != 2:
+            chk.violation("broken-correspondence", "strip specification: case does not decode",
+                          {"theorem_or_correspondence": "generator discipline", "flat": cases[i], "verdict": verdict})
+            break
+        classes["strip_then_readd"] = classes.get("strip_then_readd", 0) + verdict[1]
+        if verdict[0] == 0 and not strip_reported:
+            strip_reported = True
+            chk.violation("counterexample", "Record.strip_antismash_annotations + re-adding: after the strip main.read_data applies, fresh "
+                          "copies of the annotations it clears cannot all be added again, or the record does not hold exactly the "
+                          "survivors and the copies",
+                          {"input": describe, "flat": cases[i], "implementation": impl_outs[i], "model": model_outs[i],
+                           "spec_verdict_on_implementation_output": verdict,
+                           "theorem_or_correspondence": "C11_strip_then_readd / C11_strip_leaves_nothing_stripped"})
+    chk.extra["top_level_classes"] = classes
+    for name, number in classes.items():
+        chk.count("top_level:class_" + name, number)
+        if not number:
+            chk.violation("broken-correspondence", f"no generated case lies in the class {name}",
+                          {"theorem_or_correspondence": "generator discipline"})
     unmodelled = sum(1 for m in model_outs if m[:2] == [1, 98] or m == [-999])
     chk.extra["outside_modelled_domain"] = unmodelled
     if unmodelled:
